@@ -194,14 +194,17 @@ class Index(Node):
 
 
 class Member(Node):
-    def __init__(self, a, name):
-        self.a, self.name = a, name
+    def __init__(self, a, name, elvis=False):
+        self.a, self.name, self.elvis = a, name, elvis
 
     def text(self):
-        return '%s.%s' % (self.a.p(), self.name)
+        return '%s%s%s' % (self.a.p(), '?.' if self.elvis else '.', self.name)
 
     def ev(self, env):
-        return member(self.a.ev(env), self.name)
+        v = self.a.ev(env)
+        if self.elvis and v is None:      # `?.` skips the access only for null, not for other falsy receivers
+            return None
+        return member(v, self.name)
 
 
 def member(v, name):
@@ -235,14 +238,15 @@ class Lam:
 class Call(Node):
     """library function / method call; recv=None for function form"""
 
-    def __init__(self, name, args, recv=None, kwargs=None):
+    def __init__(self, name, args, recv=None, kwargs=None, elvis=False):
         self.name, self.args, self.recv = name, args, recv
         self.kwargs = kwargs or []          # (name, node) for calls of user-defined functions
+        self.elvis = elvis                  # recv?.name(args): null receiver => null, arguments not evaluated
 
     def text(self):
         a = ', '.join([x.text() for x in self.args] + ['%s => %s' % (k, v.text()) for k, v in self.kwargs])
         if self.recv is not None:
-            return '%s.%s(%s)' % (self.recv.p(), self.name, a)
+            return '%s%s%s(%s)' % (self.recv.p(), '?.' if self.elvis else '.', self.name, a)
         return '%s(%s)' % (self.name, a)
 
     def ev(self, env):
@@ -253,7 +257,10 @@ class Call(Node):
             return user(*args, **kw)
         vals = []
         if self.recv is not None:
-            vals.append(self.recv.ev(env))
+            rv = self.recv.ev(env)
+            if self.elvis and rv is None:
+                return None
+            vals.append(rv)
         for a in self.args:
             vals.append(a.bind(env) if isinstance(a, Lam) else a.ev(env))
         f = LIB.get(self.name)
